@@ -2,9 +2,13 @@
 (* Behaviour generation for C11 (stubbed fork/waitpid): SepProcess's actions with a history variable of the calls and
    the outcomes the environment hands to the parent.  EINTR results come in bursts whose lengths are taken from
    Bursts (0, 1, and around the retry bound), chosen after fork and after every stop - otherwise the interleavings of
-   up to RetryBound+2 interruptions with stops would swamp the enumeration. *)
+   up to RetryBound+2 interruptions with stops would swamp the enumeration.
+   The history starts with the calls on the registry (tests of every kind added, options set, in every order), and after a
+   run the registry may be changed and run again (up to MaxRuns runs); a history ends after a run.  Where the specification
+   leaves a choice (ignored tests in a run without the separate-process option) the scripts follow the intended design. *)
 EXTENDS SepProcess, Json
-CONSTANTS Bursts
+CONSTANTS Bursts,   \* lengths of EINTR bursts
+          Faults    \* BOOLEAN: fork / waitpid errors are generated too
 VARIABLES h, fin, burst
 gvars == <<vars, h, fin, burst>>
 
@@ -12,12 +16,18 @@ Step(op, a, b) == h' = Append(h, [op |-> op, a |-> a, b |-> b])
 
 GInit == Init /\ h = <<>> /\ fin = FALSE /\ burst = 0
 GStep == /\ ~fin /\ UNCHANGED fin
-         /\ \/ \E k \in 1..MaxTests : Begin(k, TRUE) /\ Step("begin", "", k) /\ UNCHANGED burst
-            \/ StartTest(NoBeh) /\ Step("teststart", "", 0) /\ UNCHANGED burst
-            \/ ForkFail /\ Step("fork", "fail", 0) /\ UNCHANGED burst
+         /\ \/ \E k \in Kinds : runs < MaxRuns /\ AddTest(k) /\ Step("addtest", k, 0) /\ UNCHANGED burst
+            \/ "sep" \in Options /\ runs < MaxRuns /\ SetSep /\ Step("setsep", "", 0) /\ UNCHANGED burst
+            \/ "ri" \in Options /\ runs < MaxRuns /\ SetRunIgnored /\ Step("setri", "", 0) /\ UNCHANGED burst
+            \/ Begin(TRUE) /\ Step("begin", "", Len(tests)) /\ UNCHANGED burst
+            \/ pc = "next" /\ ti < n /\ Place(tests[ti + 1]) # "runner" /\ StartTest(NoBeh) /\ where' = Place(tests[ti + 1])
+                                    /\ Step("teststart", "any", 0) /\ UNCHANGED burst
+            \/ \E a \in {"pass", "fail"} : pc = "next" /\ ti < n /\ Place(tests[ti + 1]) = "runner"
+                                            /\ StartTest([act |-> a, arg |-> 0]) /\ where' = "runner" /\ Step("teststart", a, 0) /\ UNCHANGED burst
+            \/ Faults /\ ForkFail /\ Step("fork", "fail", 0) /\ UNCHANGED burst
             \/ ForkOk /\ Step("fork", "ok", 0) /\ burst' \in Bursts
             \/ burst > 0 /\ WaitEintr /\ Step("wait", "eintr", 0) /\ burst' = (IF pc' = "wait" THEN burst - 1 ELSE 0)
-            \/ burst = 0 /\ WaitError /\ Step("wait", "error", 0) /\ UNCHANGED burst
+            \/ burst = 0 /\ Faults /\ WaitError /\ Step("wait", "error", 0) /\ UNCHANGED burst
             \/ \E c \in ExitCodes : burst = 0 /\ WaitExited(c) /\ Step("wait", "exited", c) /\ UNCHANGED burst
             \/ \E s \in Signals : burst = 0 /\ WaitSignaled(s) /\ Step("wait", "signaled", s) /\ UNCHANGED burst
             \/ \E s \in Signals : burst = 0 /\ stops < MaxStops /\ WaitStopped(s) /\ Step("wait", "stopped", s) /\ burst' \in Bursts
